@@ -442,6 +442,69 @@ func HugePacket(r *RNG, dom Domain) *ref.Packet {
 	}
 }
 
+// TwoBoundary builds a packet in which TWO length fields sit on a size step at
+// once: the property section has exactly propLen bytes and the remaining
+// length is exactly rem (size arithmetic that handles each step alone can
+// still go wrong when both move). ok is false when the pair is not reachable.
+func TwoBoundary(r *RNG, propLen, rem int) (p *ref.Packet, ok bool) {
+	p = &ref.Packet{Type: ref.TPublish, Topic: "t"}
+	// user properties of 1+2+k+2+v bytes each; the last one sized to land exactly
+	left := propLen
+	for left > 0 {
+		if left < 6 { // smallest user property: id + 2+1 + 2+0
+			// use a payload format indicator (2 bytes) and message expiry (5 bytes) to fill
+			switch {
+			case left == 2:
+				p.Props = append(p.Props, ref.Prop{ID: 0x01, N: 1})
+				left = 0
+			case left == 5:
+				p.Props = append(p.Props, ref.Prop{ID: 0x02, N: 7})
+				left = 0
+			default:
+				return nil, false
+			}
+			continue
+		}
+		n := left
+		if n > 65535+6 {
+			n = 60000
+		} else if n > 65535 {
+			n = 40000
+		}
+		if left-n != 0 && left-n < 6 && left-n != 2 && left-n != 5 {
+			n -= 6
+		}
+		body := n - 6 // key 1 byte + value
+		if body < 0 || body > 65535 {
+			return nil, false
+		}
+		p.Props = append(p.Props, ref.Prop{ID: 0x26, S: "k", V: UTF8(r, body)})
+		left -= n
+	}
+	used := 3 + ref.VBILen(uint32(propLen)) + propLen
+	if rem < used {
+		return nil, false
+	}
+	p.Payload = r.Bytes(rem - used)
+	if len(p.Payload) == 0 {
+		p.Payload = nil
+	}
+	return p, true
+}
+
+// TwoBoundaryPairs lists the (property length, remaining length) pairs worth building.
+func TwoBoundaryPairs() [][2]int {
+	var out [][2]int
+	for _, pl := range []int{0, 100, 126, 127, 128, 129, 130, 300, 16382, 16383, 16384, 16385, 20000} {
+		for _, rem := range []int{127, 128, 129, 16383, 16384, 16385, 2097151, 2097152, 2097153} {
+			if rem >= 3+ref.VBILen(uint32(pl))+pl {
+				out = append(out, [2]int{pl, rem})
+			}
+		}
+	}
+	return out
+}
+
 // Random draws one packet: type, mask and size class chosen at random.
 func Random(r *RNG, dom Domain) *ref.Packet {
 	t := AllTypes[r.Intn(len(AllTypes))]
